@@ -28,6 +28,9 @@ ASSUMPTIONS = [
     "zck_clear_error between transfers is part of the session model (Dl/Session.v clear_error: every error the download model sets is "
     "recoverable) and of the correspondence; while an error is pending zck_get_missing_range returns NULL, no range is set and header lines / "
     "fragments must be refused cleanly; zck_clear_error INSIDE a transfer (opts clr) is exercised on the implementation only (sanitizer oracle)",
+    "header lines that arrive after body callbacks of the same transfer (session step n: no reset, same range) are part of the "
+    "model run (header_cb and write_cb are functions of one state; a new boundary does not recompile the part patterns, as in the C) "
+    "and of the correspondence",
     "same model, driver and harness as C05 (Dl/DlWrite.v, Dl/Multipart.v, ocaml/drv_c17.ml, harness/zh_c17.c)",
     "the transport stops at the first short return; continuing after zck_clear_error is exercised on the implementation "
     "only (sanitizer oracle), not compared with the model",
@@ -43,6 +46,7 @@ def header_lines(rng):
     b = B0
     ls = [
         ct_header(b), ct_header(b, quoted=True), ct_header(b, extra=b"   "), ct_header(b, extra=b"; charset=x"),
+        ct_header(b, name=b"content-type: "), ct_header(b, name=b"CONTENT-TYPE:"), ct_header(b, name=b"Content-type:   "),
         b"Content-Type: multipart/byteranges; boundary=" + b + b"\n",            # no CR
         b"Content-Type: multipart/byteranges; boundary=" + b,                     # no line end at all
         b"Content-Type: multipart/byteranges; boundary=\r\n", b"boundary=\r", b"boundary\r\n", b"boundary = \r\n",
@@ -259,6 +263,21 @@ def gen_sessions(tier, rng):
                         if nm == "good":
                             c.expect = c05.expect_for(c)
                         cases.append(c)
+    # ---- header lines arriving again AFTER body callbacks of the same transfer (step n = no reset, same range): boundary A,
+    # part of the body, a second boundary header line (B), the rest of the body still delimited by A / delimited by B / garbage
+    for ti, chunks in enumerate(tables):
+        want0 = missing(chunks, set())
+        A, Bb = b"sEss10n", b"secondOne"
+        hA, bA, eA = response_spans(chunks, want0, 24, "mp", boundary=A)
+        _, bB, _ = response_spans(chunks, want0, 24, "mp", boundary=Bb)
+        cutsT = sorted(set([1, 20, len(bA) // 2, len(bA) - 3] + [e for e in eA.values()] + [rng.randrange(1, len(bA)) for _ in range(4 if not thorough else 20)]))
+        for T in [t for t in cutsT if 0 < t < len(bA)]:
+            for nm, h2, rest in (("sameA", [ct_header(Bb)], bA[T:]), ("thenB", [ct_header(Bb)], bB), ("hdrAagain", [ct_header(A)], bA[T:]),
+                                 ("garbage", [ct_header(Bb), b"boundary=x\r\n"], rng.rbytes(30)), ("nohdr-change", [b"X-Late: 1\r\n"], bA[T:])):
+                for p1, p2 in (("w", "w"), ("k1", "k7"), ("k5", "k1")):
+                    c = SCase("sess17-hdr:%d:cut=%d:%s:%s%s" % (ti, T, nm, p1, p2), chunks, [(hA, bA[:T], p1), (h2, rest, p2, "n")],
+                              kind="session")
+                    cases.append(c)
     # ---- error state across transfers: a response that leaves a recoverable error (part header without a usable
     # content-range, garbage instead of a part header, ...), then transfers while the error is still pending (no range can
     # be computed; header lines and fragments must be refused cleanly), then zck_clear_error and a well-formed transfer
